@@ -13,12 +13,17 @@ _Q = st.integers(1, 12).map(lambda k: k / 4)  # dyadic(4, 0.25, 3)
 @st.composite
 def dyadic_costs(draw, force_ties=False):
     """(ins, del, sub) on the 1/4 grid, by class."""
-    classes = ["unit", "equal", "two_equal", "distinct", "sub_big", "ins_small", "sub_eq_sum", "sub_eq_2ins", "extreme"]
+    classes = ["unit", "equal", "two_equal", "distinct", "sub_big", "ins_small", "sub_eq_sum", "sub_eq_2ins", "extreme", "near_tie"]
     if force_ties:
         classes = classes + ["sub_eq_sum", "sub_eq_2ins", "sub_eq_sum"]
     c = draw(st.sampled_from(classes))
     if c == "unit":
         return [1.0, 1.0, 1.0]
+    if c == "near_tie":
+        # costs that differ by 2^-15 .. 2^-13, or are all tiny: still exact in float32 for the generated sizes
+        return draw(st.sampled_from([[1.0, 1.0, 1.0 + 2.0 ** -15], [1.0 + 2.0 ** -14, 1.0, 1.0], [1.0, 1.0 + 2.0 ** -13, 1.0],
+                                     [2.0 ** -17, 2.0 ** -17, 2.0 ** -16], [2.0 ** -16, 2.0 ** -17, 2.0 ** -17],
+                                     [1.0, 1.0, 2.0 - 2.0 ** -14], [0.5, 0.5 + 2.0 ** -15, 1.0]]))
     if c == "extreme":
         # powers of two far apart: sums stay exact in float32 (<= 13 terms of at most 11 significant bits)
         pool = [2.0 ** -8, 2.0 ** -4, 1.0, 16.0, 256.0]
@@ -245,3 +250,22 @@ def long_batch(draw, tier, max_n=3):
             refs.append(rr)
             hyps.append(hh)
     return {"N": N, "R": R, "H": H, "A": A, "eos": eos, "eos_kind": eos_kind, "refs": refs, "hyps": hyps}
+
+
+@st.composite
+def eos_padded_wide_batch(draw, tier, max_n=3):
+    """Short transcripts sitting in very wide tensors that are padded with copies of eos (hundreds of eos tokens per
+    row), as batching code produces them."""
+    big = tier == "thorough"
+    N = draw(st.integers(1, max_n))
+    A = draw(st.integers(1, 3))
+    eos = draw(st.sampled_from([A, 0, -1]))
+    widths = [257, 300, 530] + ([1025, 2049] if big else [])
+    R = draw(st.sampled_from(widths + [8, 12]))
+    H = draw(st.sampled_from(widths + [8, 12]))
+    if R < 200 and H < 200:
+        R = 300
+    body = st.lists(st.integers(0, A - 1).filter(lambda t: t != eos) if A > 1 or eos != 0 else st.just(A), max_size=6)
+    refs = [(draw(body) + [eos] * R)[:R] for _ in range(N)]
+    hyps = [(draw(body) + [eos] * H)[:H] for _ in range(N)]
+    return {"N": N, "R": R, "H": H, "A": A, "eos": eos, "eos_kind": "padded", "refs": refs, "hyps": hyps}
